@@ -15,6 +15,7 @@ TRUSTED = ['the frozen may-panic classification of external callees (listed in t
 UNDECIDED = ['allocation size / memory exhaustion', 'panics inside external crates not marked #[track_caller] and not in the may-panic table',
              'an edit that removes the guard of a source triaged "infeasible" is not seen by the cone rule']
 ASSUMPTIONS = ['request-side code reached only through Encoder::encode is driven by the client, not the peer, and is outside this cone']
+SHARED = [('C01', ('R1.envelope-path', 'R1.decoder'), 'H6.guards-of-reviewed-sources')]      # two panic sources are reviewed as infeasible because the frame decoder guards them (only a constructed [0] reaches the control-list decoder; only Tag::StructureTag leaves the decoder): those guards are re-decided on every run
 
 TRIAGE = os.path.join(engine.VERIF, 'rules', 'triage', 'C11.tsv')
 
